@@ -7,9 +7,11 @@ CONSTANTS
   RecheckAtApply = TRUE
   KeepTimers = FALSE
   CountAllWit = FALSE
+  RetryBlind = FALSE
   MaxOps = 3
   MaxPend = 0
   MaxWaits = 3
+  MaxParks = 0
   EpochSels = {"cur", "old", "next"}
   PairSels = {"cur", "sc", "old", "next"}
   WaitModes = {"none", "good"}
